@@ -30,12 +30,13 @@ def check_case(ctx, case, stats, samples):
     stats["worlds_partial_order"] += int(po)
     encs = case["types"]
     # 1. correspondence
+    broken = False
     for i in range(n):
         for j in range(n):
             stats["evaluations"] += 1
-            if ords[i][j] != mord[i][j]:
+            if ords[i][j] != mord[i][j] and not broken:
                 ctx.violation(f"typeorder: implementation {ords[i][j]} != model {mord[i][j]}", L.pair_case(case, i, j), kind="correspondence")
-                return
+                broken = True      # the oracles below still question the implementation's own answers
     # 2. property oracles on the implementation's own answers
     for i in range(n):
         if ords[i][i] != 0:
